@@ -70,7 +70,9 @@ fn get_delta_superficial_loss_info(
     let m_sfl = get_superficial_loss_ratio(idx, txs, ptf_statuses)?;
 
     let calculated_sfl_amount: LessEqualZeroDecimal = match &m_sfl {
-        Some(sfl) => LessEqualZeroDecimal::from(c_maybe_round_to_effective_cent(
+        // Round as a LessEqualZeroDecimal: a tiny negative amount can round to
+        // exactly zero, which is not a valid NegDecimal.
+        Some(sfl) => c_maybe_round_to_effective_cent(LessEqualZeroDecimal::from(
             cap_loss.mul_pos(sfl.sfl_ratio.to_posdecimal()),
         )),
         None => LessEqualZeroDecimal::zero(),
@@ -139,7 +141,13 @@ fn get_delta_superficial_loss_info(
 
         // We don't need calculated_sfl_amount to be a LessEqualZeroDecimal anymore
         let calculated_sfl_amount =
-            NegDecimal::try_from(*calculated_sfl_amount).unwrap();
+            match NegDecimal::try_from(*calculated_sfl_amount) {
+                Ok(v) => v,
+                Err(_) => {
+                    // The loss rounded to zero. Nothing to deny.
+                    return Ok(None);
+                }
+            };
         let potentially_over_applied_sfl =
             sfl.fewer_remaining_shares_than_sfl_shares;
 
